@@ -13,11 +13,13 @@ def ChainType.ofString? : String → Option ChainType
   | "automatedtesting" => some .automated | "usertesting" => some .user
   | "testnet" => some .testnet | "mainnet" => some .mainnet | _ => none
 
-/-- `consensus::header_version(height)` -/
+/-- `consensus::header_version(height)`; the interval count is computed as
+`(1 + height / INTERVAL) as u16` (truncating cast) before `min(5, ·)`: for heights beyond
+`65535 · INTERVAL` the version falls back to `0 … 5` -/
 def headerVersion (c : ChainType) (height : Nat) : Nat :=
   match c with
-  | .mainnet => min 5 (1 + height / HARD_FORK_INTERVAL)
-  | .automated | .user => min 5 (1 + height / TESTING_HARD_FORK_INTERVAL)
+  | .mainnet => min 5 ((1 + height / HARD_FORK_INTERVAL) % 65536)
+  | .automated | .user => min 5 ((1 + height / TESTING_HARD_FORK_INTERVAL) % 65536)
   | .testnet =>
     if height < TESTNET_FIRST_HARD_FORK then 1
     else if height < TESTNET_SECOND_HARD_FORK then 2
